@@ -174,8 +174,12 @@ def round_trip(cfg, root, files, args, pre, rng, label, tree_prefix=b'tree'):
         q = harness.restored_path(tgt, p)
         os.makedirs(os.path.dirname(q), exist_ok=True)
         n = len(want_data[p])
-        junk = {'shorter': max(n - 1, 0), 'same': n, 'longer': n + 2 + rng.randrange(40)}[state]
+        junk = {'shorter': max(n - 1, 0), 'same': n, 'twin': n, 'longer': n + 2 + rng.randrange(40)}[state]
         open(q, 'wb').write(bytes([0xEE]) * junk)
+        if state == 'twin':
+            # other bytes, same length, and the modification time of the snapshotted file (a damaged times-preserving copy)
+            mt = os.stat(p).st_mtime_ns
+            os.utime(q, ns=(mt, mt))
         rec['files'][fid[p] - 1]['pre'] = state
     with (linefuzz.fuzz(fseed + 1, linefuzz.RESTORE, q=0.1) if fz else contextlib.nullcontext()):
         o2 = w.restore('a', tgt, concurrent=cfg['conc'])
@@ -294,7 +298,10 @@ def main(run):
                 # more than one directory: nested ones, and siblings whose names extend each other
                 args = rng.sample(['tree', 'tree/sub', 'tree/g01', 'tree/g0', 'tree/sub/deep'], rng.randrange(1, 4)) + args[:2]
                 files.update({'g0/x.bin': content(rng, 50, 'rand'), 'g01/y.bin': content(rng, 70, 'rand'), 'sub/deep/er.x': content(rng, 9, 'rand'), 'sub/top': b'top'})
-            rec = round_trip(cfg, d, files, args, {}, rng, 'random-tree') if rng.random() < 0.7 else None
+            # some of the restored paths already exist in the target: shorter / same length / longer / same length AND same mtime
+            rpre = {os.path.join(str(d), 'src', 'tree', nm): rng.choice(['shorter', 'same', 'twin', 'longer'])
+                    for nm in names if len(files[nm]) > 0 and rng.random() < 0.3}
+            rec = round_trip(cfg, d, files, args, rpre, rng, 'random-tree') if rng.random() < 0.7 else None
             if rec is None:
                 # symlinks: a link to a file given as argument, and a link inside the walked directory
                 os.makedirs(src, exist_ok=True)
